@@ -31,6 +31,11 @@ def plan(ctx):
     # half refused and merged into the next period's reservoir, then more events (engine res: the real analyticsEvents)
     n = 40 if ctx["tier"] == "quick" else 1500
     batches.append(("carry", [("sc%d" % i, g.res_split_carry(ctx["rng"])) for i in range(n)]))
+    # rename rules that fold several reported names into one, with the metric payload refused and sent again: every
+    # contribution is acknowledged once
+    from checks import gen_proc
+    m = 25 if ctx["tier"] == "quick" else 1000
+    batches.append(("rename-retry", [("rr%d" % i, gen_proc.rule_change_history(ctx["rng"])) for i in range(m)]))
     return batches
 
 
